@@ -379,12 +379,12 @@ func runManifestItems(c *Ctx) {
 			c.Check(okc, "count/"+base, call.Pos(), "counters and totals are updated consistently with the appended item", "manifest counters disagree with the appended item: "+why)
 			// ---- SLASH
 			slashOK := false
-			if rc, ok := ast.Unparen(relE).(*ast.CallExpr); ok && (calleeIs(info, rc, "path/filepath", "ToSlash") || calleeIs(info, rc, "path/filepath", "Base")) {
+			if isSlashedExpr(p, f, relE, 0) {
 				slashOK = true
 			} else if o := ObjOf(info, relE); o != nil {
 				sp := &PassSpec{Vias: []Via{{Stmt: func(g *FuncInfo, n ast.Node) (string, bool) {
 					if as, ok := n.(*ast.AssignStmt); ok && len(as.Lhs) >= 1 && len(as.Rhs) == 1 && ObjOf(g.Info(), as.Lhs[0]) == o {
-						if rc, ok := ast.Unparen(as.Rhs[0]).(*ast.CallExpr); ok && calleeIs(g.Info(), rc, "path/filepath", "ToSlash") {
+						if isSlashedExpr(p, g, as.Rhs[0], 0) {
 							return "slashed", true
 						}
 					}
@@ -394,7 +394,7 @@ func runManifestItems(c *Ctx) {
 						for _, ao := range AssignedObjs(g.Info(), n) {
 							if ao == o {
 								if as, ok := n.(*ast.AssignStmt); ok && len(as.Rhs) == 1 {
-									if rc, ok := ast.Unparen(as.Rhs[0]).(*ast.CallExpr); ok && calleeIs(g.Info(), rc, "path/filepath", "ToSlash") {
+									if isSlashedExpr(p, g, as.Rhs[0], 0) {
 										return nil
 									}
 								}
@@ -932,4 +932,34 @@ func isAbsDerived(f *FuncInfo, e ast.Expr, depth int) bool {
 		}
 	}
 	return true
+}
+
+// isSlashedExpr: e is filepath.ToSlash(..) / filepath.Base(..), a function of package strings applied to such a value, or a call
+// of a repository function all of whose returns are (a helper that normalises a name for the wire).
+func isSlashedExpr(p *Program, f *FuncInfo, e ast.Expr, depth int) bool {
+	call, ok := ast.Unparen(e).(*ast.CallExpr)
+	if !ok || depth > 2 {
+		return false
+	}
+	info := f.Info()
+	if calleeIs(info, call, "path/filepath", "ToSlash") || calleeIs(info, call, "path/filepath", "Base") {
+		return true
+	}
+	if fn := Callee(info, call); fn != nil && fn.Pkg() != nil && fn.Pkg().Path() == "strings" && len(call.Args) >= 1 {
+		return isSlashedExpr(p, f, call.Args[0], depth+1)
+	}
+	if h := p.CalleeInfo(info, call); h != nil && h.Body != nil {
+		n, all := 0, true
+		InspectNoLits(h.Body, func(m ast.Node) bool {
+			if rs, ok := m.(*ast.ReturnStmt); ok && len(rs.Results) >= 1 {
+				n++
+				if !isSlashedExpr(p, h, rs.Results[0], depth+1) {
+					all = false
+				}
+			}
+			return true
+		})
+		return n > 0 && all
+	}
+	return false
 }
